@@ -48,10 +48,10 @@ let kind_of (ks : string) (n : int) : kind =
   let xs = contents n in
   let v1000 p = string_of_int (1000 + p) in
   match List.hd kp with
-  | "dyn" | "fv" | "fmrow" | "dmrow" ->
+  | "dyn" | "fv" | "fmrow" | "dmrow" | "dynov" ->
       { ops = (fun conv -> c16_legacy_ops (c16_dense_prims xs) conv); rep = (fun p -> c16_dense_rep (z_of_int p));
         unrep = (fun x -> int_of_z (c16_dense_unrep x)); lo = -1; n; two = true; value = v1000; always = false; nplus = false; conv = true; arrow = false }
-  | "gen" ->
+  | "gen" | "genov" ->
       { ops = (fun conv -> c16_legacy_ops (c16_generic_prims xs) conv); rep = z_of_int; unrep = int_of_z; lo = -1; n; two = true;
         value = v1000; always = false; nplus = false; conv = true; arrow = false }
   | "al" | "al1" | "al8" ->          (* the chunk size N does not enter the iterator arithmetic: slots are absolute *)
@@ -104,8 +104,8 @@ let combos = [ ("mm", true); ("mc", false); ("cm", true); ("cc", true) ]
 let tagged_prims ks n =
   let xs = contents n in
   match List.hd (String.split_on_char ':' ks) with
-  | "dyn" | "fv" | "fmrow" | "dmrow" -> Some (c16_tag_prims (c16_dense_prims xs), (fun c p -> (z_of_int c, c16_dense_rep (z_of_int p))))
-  | "gen" -> Some (c16_tag_prims (c16_generic_prims xs), (fun c p -> (z_of_int c, z_of_int p)))
+  | "dyn" | "fv" | "fmrow" | "dmrow" | "dynov" -> Some (c16_tag_prims (c16_dense_prims xs), (fun c p -> (z_of_int c, c16_dense_rep (z_of_int p))))
+  | "gen" | "genov" -> Some (c16_tag_prims (c16_generic_prims xs), (fun c p -> (z_of_int c, z_of_int p)))
   | _ -> None
 let do_cmp ks n i j =
   let k = kind_of ks n in
@@ -701,6 +701,142 @@ let trx2_case variant xs =
       tokline [ ("fwd", zs (elems f xs), zs (List.map f xs)); ("back", zs (back (zi n) []), zs (List.rev (List.map f xs))) ]
   | _ -> ("BADCASE", "BADCASE")
 
+(* ------------------------------------------------------------------ dimension audit 2: pre-existing target state, asymmetric indices, full-span ranges *)
+let asg_case ks n i j =
+  let base = List.hd (String.split_on_char ':' ks) in
+  let zi = z_of_int in
+  let xs = contents n in
+  match base with
+  | "trf" ->
+      if i < 0 || i > n || j < 0 || j > n then ("BADCASE", "BADCASE") else
+      let o = c16_tr_ops (fun x -> x) xs in                     (* positions >= 100 are addresses inside the OTHER vector *)
+      let fs fid v = (match v with Some x -> Some (if fid = zi 1 then Z.add (Z.mul (zi 2) x) (zi 1) else Z.add (Z.opp x) (zi 5)) | None -> None) in
+      let r = c16_tri_assign_over (zi (100 + j), zi 2) (zi i, zi 1) in
+      let obs r = let p = int_of_z (fst r) in string_of_int p ^ ":" ^ (if p >= 0 && p < n then let v = ovz (c16_tri_star o fs r) in v ^ "/" ^ v else "-") in
+      let sp = string_of_int i ^ ":" ^ (if i < n then let v = string_of_int (2 * (1000 + i) + 1) in v ^ "/" ^ v else "-") in
+      let eq = b01 (o.c16_o_eq (fst r) (zi i) && snd r = zi 1) ^ b01 (o.c16_o_ne (fst r) (zi i)) in
+      tokline [ ("m.asg", obs r, sp); ("m.eq", eq, "10"); ("c.asg", obs r, sp); ("c.eq", eq, "10"); ("m.masg", obs r, sp) ]
+  | "sl" ->
+      if i < 0 || i > n || j < 0 || j > n then ("BADCASE", "BADCASE") else
+      let o = c16_legacy_ops (c16_sl_prims xs) true in
+      let pt x = let p = int_of_z (c16_sl_cur x) in string_of_int p ^ ":" ^ (if p >= 0 && p < n then ovz (o.c16_o_star (c16_sl_cur x)) else if p = n then "-" else "?") in
+      let sp p = string_of_int p ^ ":" ^ (if p >= 0 && p < n then string_of_int (1000 + p) else "-") in
+      let other c = (match c with 'i' -> C16SlIt (zi (100 + j)) | 'c' -> C16SlConst (zi (100 + j)) | _ -> C16SlMod (zi (99 + j), zi (100 + j))) in
+      let a c = c16_assign_over (other c) (sl_obj c i) in
+      tokline [ ("i.asg", pt (a 'i'), sp i); ("c.asg", pt (a 'c'), sp i);
+                ("m.asg", pt (a 'm') ^ "/" ^ (if i < n then pt (c16_sl_inc (a 'm')) else "-"), sp i ^ "/" ^ (if i < n then sp (i + 1) else "-"));
+                ("ci.conv", pt (c16_assign_over (other 'c') (c16_sl_to_const (sl_obj 'i' i))), sp i);
+                ("cm.conv", pt (c16_assign_over (other 'c') (c16_sl_to_const (sl_obj 'm' i))), sp i);
+                ("im.conv", pt (c16_assign_over (other 'i') (c16_sl_to_it (sl_obj 'm' i))), sp i) ]
+  | "idx" ->
+      if i < 0 || i > n || j < 0 || j > n then ("BADCASE", "BADCASE") else
+      let o = c16_nf_ops (c16_vec_base xs) (fun p -> c16_at xs p) in
+      let obs (it, ix) = let p = int_of_z it in string_of_int p ^ ":" ^ (if p >= 0 && p < n then ovz (o.c16_o_star it) else "-") ^ ":" ^ string_of_z ix in
+      let sp p ix = string_of_int p ^ ":" ^ (if p >= 0 && p < n then string_of_int (1000 + p) else "-") ^ ":" ^ string_of_int ix in
+      let tg = (zi (100 + j), zi (1000000 + j)) in
+      let r = c16_idx_assign_over tg (zi i, zi (i - 5)) in
+      let dk = kind_of "dyn" n in
+      let dr = c16_idx_assign_over (dk.rep j, zi 77) (dk.rep i, zi (3 + i)) in
+      tokline [ ("v.asg", obs r, sp i (i - 5)); ("v.next", (if i < n then obs (c16_idx_inc o r) else "-"), (if i < n then sp (i + 1) (i - 4) else "-"));
+                ("v.masg", obs r, sp i (i - 5)); ("v.frombase", obs (c16_idx_assign_over tg (zi i, Z0)), sp i 0);
+                ("d.asg", ptok dk (dk.ops true) (fst dr) ^ ":" ^ string_of_z (c16_idx_index dr), spec_ptok dk i ^ ":" ^ string_of_int (3 + i)) ]
+  | _ ->
+      let k = kind_of ks n in
+      if i < k.lo || i > n || j < k.lo || j > n then ("BADCASE", "BADCASE") else
+      let o = k.ops true in
+      let pt = ptok k o and sp = spec_ptok k in
+      let tagged = tagged_prims ks n in
+      let assigned conv_ = (match tagged with
+        | Some (_, trep) -> let r = (if conv_ then c16_tag_convert_assign_over (trep 2 j) (trep 1 i) else c16_tag_assign_over (trep 2 j) (trep 1 i)) in
+                            if fst r = zi 1 then Some (snd r) else None
+        | None -> Some (c16_assign_over (k.rep j) (k.rep i))) in
+      let ptk = function Some r -> pt r | None -> "?none" in
+      let rel = function
+        | Some r -> (match tagged with Some (tp, trep) -> cmp6 (c16_legacy_ops tp true) (zi 1, r) (trep 1 i) | None -> cmp6 o r (k.rep i))
+        | None -> "?" in
+      let moved = function Some r -> Some (if i + 1 <= n then o.c16_o_dec (o.c16_o_inc r) else r) | None -> None in
+      let one pre =
+        let r = assigned false in
+        [ (pre ^ "asg", ptk r, sp i); (pre ^ "rel", rel r, "100101:0"); (pre ^ "moved", ptk (moved r), sp i); (pre ^ "masg", ptk r, sp i);
+          (pre ^ "chain", ptk (match r with Some x -> Some (c16_assign_over (k.rep j) x) | None -> None), sp i) ] in
+      let variants = if k.two then [ "m."; "c." ] else [ "m." ] in
+      let conv = if k.two && k.conv then
+          let r = assigned true in
+          [ ("conv", ptk r, sp i); ("convrel", (match r with Some x -> b01 (o.c16_o_eq x (k.rep i)) ^ b01 (o.c16_o_ne x (k.rep i)) | None -> "?"), "10") ]
+        else [] in
+      tokline (List.concat (List.map one variants) @ conv)
+
+let asgv_case xs =
+  let zi = z_of_int in
+  let n = List.length xs in
+  let f a b x = Z.add (Z.mul (zi a) x) (zi b) in
+  let elems (l, (a, b)) = List.map (function Some v -> v | None -> failwith "deref") (res_zs (c16_tr_elems (f a b) l (nat_of_int (List.length l + 2)))) in
+  let at (l, (a, b)) = List.init (List.length l) (fun i -> match c16_tr_at (f a b) l (zi i) with Some v -> v | None -> failwith "at") in
+  let nines k = List.init k (fun _ -> zi 9) in
+  let v1 = c16_range_assign_over (nines 9, (3, 3)) (xs, (-1, 0)) in
+  let v2 = c16_range_assign_over (nines 3, (0, 7)) (xs, (2, 1)) in
+  let ity = ity_of "i32" in
+  let irl (a, b) = List.map (function Some v -> v | None -> failwith "d") (res_zs (c16_range_for (c16_ir_ops_src ity) (nat_of_int (int_of_z (Z.sub b a) + 2)) (c16_iterrange a b))) in
+  let r1 = c16_range_assign_over (zi 100, zi 110) (zi 2, zi (2 + n)) in
+  let r2 = c16_range_assign_over r1 (c16_sir_to_ir (zi 2) (zi 6)) in
+  let r3 = c16_range_assign_over r2 (c16_sir_to_ir Z0 Z0) in
+  let size (a, b) = c16_irange_size ity a b in
+  let neg = List.map Z.opp xs in
+  let ito = c16_nf_ops (c16_vec_base xs) (fun p -> c16_at xs p) in
+  let itr = c16_range_assign_over (zi 101, zi 108) (Z0, zi n) in
+  tokline [ ("copy", zs (elems v1), zs neg); ("copyat", zs (at v1), zs neg); ("copysize", string_of_z (c16_tr_size (fst v1)), string_of_int n);
+            ("copyempty", b01 (c16_tr_empty (fst v1)), b01 (n = 0)); ("copyafter", zs (elems v1), zs neg);
+            ("move", zs (elems v2), zs (List.map (f 2 1) xs)); ("movesize", string_of_z (c16_tr_size (fst v2)), string_of_int n);
+            ("ir", zs (irl r1), zs (c16_spec_irange (zi 2) (zi (2 + n)))); ("irsize", string_of_z (size r1), string_of_int n);
+            ("irempty", b01 (c16_irange_empty (fst r1) (snd r1)), b01 (n = 0));
+            ("ircont", b01 (c16_irange_contains (fst r1) (snd r1) (zi 105)) ^ b01 (c16_irange_contains (fst r1) (snd r1) (zi 2)), "0" ^ b01 (n > 0));
+            ("sir", zs (irl r2), "2,3,4,5"); ("sirsize", string_of_z (size r2), "4");
+            ("sirempty", zs (irl r3) ^ ":" ^ b01 (c16_irange_empty (fst r3) (snd r3)), "-:1");
+            ("itr", zs (List.map (function Some v -> v | None -> failwith "d") (res_zs (c16_range_for ito (nat_of_int (n + 2)) itr))), zs xs);
+            ("itrdist", string_of_z (ito.c16_o_diff (snd itr) (fst itr)), string_of_int n) ]
+
+let idxcmp_case base n i j a b =
+  if i < 0 || j < 0 || i > n || j > n then ("BADCASE", "BADCASE") else
+  let k = kind_of (match base with "ir" -> "ir:i32:1000" | "al" -> "al:2" | s -> s) n in
+  let conv_all = base <> "al" in
+  ignore conv_all;
+  let o = k.ops true in
+  let io = c16_idx_ops o in
+  let x = (k.rep i, a) and y = (k.rep j, b) in
+  let vp = bits [c16_idx_vs_base_eq o x (k.rep j); o.c16_o_ne (fst x) (k.rep j); o.c16_o_lt (fst x) (k.rep j); o.c16_o_le (fst x) (k.rep j);
+                 o.c16_o_gt (fst x) (k.rep j); o.c16_o_ge (fst x) (k.rep j)] ^ ":" ^ string_of_z (c16_idx_vs_base_diff o x (k.rep j)) in
+  let pv = cmp6 o (k.rep i) (fst y) in
+  tokline [ ("vv", cmp6 io x y, spec6 i j); ("vp", vp, spec6 i j); ("pv", pv, spec6 i j);
+            ("idx", string_of_z (c16_idx_index x) ^ "," ^ string_of_z (c16_idx_index y), string_of_z a ^ "," ^ string_of_z b) ]
+
+let sparsei_case i0 e0 xs =
+  let n = List.length xs in
+  let vo = c16_nf_ops (c16_vec_base xs) (fun p -> c16_at xs p) in
+  let pr = function (Some v, i) -> string_of_z v ^ ":" ^ string_of_z i | (None, _) -> "-" in
+  let m = res_list pr (c16_range_for (c16_sparse_over (c16_idx_ops vo) c16_idx_index) (nat_of_int (n + 2)) (c16_iterrange (Z0, i0) (z_of_int n, e0))) in
+  ("elems=" ^ m, "elems=" ^ join (List.mapi (fun k v -> string_of_z v ^ ":" ^ string_of_z (Z.add i0 (z_of_int k))) xs))
+
+let irangex_case t =
+  let ty = ity_of (List.nth t 1) in
+  let from = z_of_string (List.nth t 2) and to_ = z_of_string (List.nth t 3) in
+  let xs = if List.length t > 4 then zlist (List.nth t 4) else [] in
+  let o = c16_ir_ops_src ty in
+  let size = c16_irange_size ty from to_ in
+  let empty = c16_irange_empty from to_ in
+  let cont f = if xs = [] then "-" else String.concat "" (List.map (fun x -> b01 (f x)) xs) in
+  let rec first it k acc = if k = 0 || not (o.c16_o_ne it to_) then List.rev acc else first (o.c16_o_inc it) (k - 1) (ovz (o.c16_o_star it) :: acc) in
+  let span = Z.sub to_ from in
+  let one = z_of_int 1 in
+  let kmax sz = Z.min (Z.sub sz one) (c16_tmax ty) in
+  let sfirst = List.filter_map (fun k -> if Z.ltb (z_of_int k) span then Some (string_of_z (Z.add from (z_of_int k))) else None) [0; 1; 2] in
+  tokline [ ("size", string_of_z size, string_of_z span); ("empty", b01 empty, b01 (from = to_));
+            ("cont", cont (c16_irange_contains from to_), cont (fun x -> Z.leb from x && Z.ltb x to_));
+            ("first", join (first from 3 []), join sfirst);
+            ("last", (if empty then "-" else ovz (o.c16_o_star (o.c16_o_dec to_))), (if from = to_ then "-" else string_of_z (Z.sub to_ one)));
+            ("at0", (if empty then "-" else string_of_z (c16_irange_at ty from Z0)), (if from = to_ then "-" else string_of_z from));
+            ("atmax", (if empty then "-" else string_of_z (c16_irange_at ty from (kmax size))), (if from = to_ then "-" else string_of_z (Z.add from (kmax span))));
+            ("pairsize", string_of_z size, string_of_z span) ]
+
 let () =
   let ic = open_in Sys.argv.(1) in
   (try while true do
@@ -728,6 +864,11 @@ let () =
         | "nstep" :: ks :: _ -> do_step ks (ios (nth 2)) (nth 3) (ios (nth 4)) (ios (nth 5))
         | "arrow" :: _ -> arrow_case (ios (nth 1)) (ios (nth 2))
         | "prim" :: kind :: _ -> prim_case kind (ios (nth 2)) (ios (nth 3)) (ios (nth 4))
+        | "asg" :: ks :: _ -> asg_case ks (ios (nth 2)) (ios (nth 3)) (ios (nth 4))
+        | "asgv" :: _ -> asgv_case (if List.length t > 1 then zlist (nth 1) else [])
+        | "idxcmp" :: base :: _ -> idxcmp_case base (ios (nth 2)) (ios (nth 3)) (ios (nth 4)) (z_of_string (nth 5)) (z_of_string (nth 6))
+        | "sparsei" :: _ -> sparsei_case (z_of_string (nth 1)) (z_of_string (nth 2)) (if List.length t > 3 then zlist (nth 3) else [])
+        | "irangex" :: _ -> irangex_case t
         | "self" :: ks :: _ -> self_case ks (ios (nth 2)) (ios (nth 3)) (ios (nth 4))
         | "walk" :: ks :: _ -> walk_case ks (ios (nth 2)) (if List.length t > 3 && nth 3 <> "-" then split_on ',' (nth 3) else [])
         | "hyx" :: "dyn" :: _ -> hydyn_case (if List.length t > 3 then zlist (nth 3) else [])
